@@ -13,7 +13,7 @@ namespace SimVerif
 
 /-- what a completed (or parked) `async_read_some` posts, as a function of the `readSome` result -/
 def readCompl (h : Nat) : Except Ec (List UInt8) → List Compl
-  | .ok d => [{ h := h, ec := .ok, extra := readExtra d }]
+  | .ok d => [{ h := h, ec := .ok, extra := readExtra d, data := d }]
   | .error .wouldBlock => []
   | .error e => [{ h := h, ec := e, extra := "n=0 data=-" }]
 
@@ -76,7 +76,7 @@ theorem maybeWakeupReader_posts (tp : TParams) (s : TcpSock) :
 
 /-- the ghost event and the posted completion come from the same `readSome` / `available` result -/
 theorem wakeRead_wakeCompl (tp : TParams) (s : TcpSock) :
-    (∀ d, s.wakeRead tp = some (.data d) → ∃ h, s.wakeCompl tp = [{ h := h, ec := .ok, extra := readExtra d }])
+    (∀ d, s.wakeRead tp = some (.data d) → ∃ h, s.wakeCompl tp = [{ h := h, ec := .ok, extra := readExtra d, data := d }])
     ∧ (∀ e, s.wakeRead tp = some (.err e) → ∃ h x, s.wakeCompl tp = [{ h := h, ec := e, extra := x }])
     ∧ (s.wakeRead tp = none → ∀ c ∈ s.wakeCompl tp, c.ec = .ok ∧ c.extra = "") := by
   unfold TcpSock.wakeRead TcpSock.wakeCompl
